@@ -1,56 +1,37 @@
 #!/usr/bin/env python3
-"""Regenerates /verif/MANIFEST.json from the table below (kept in one place so
-that the manifest is always valid and in step with the checks that exist)."""
-import json, os, sys
+"""Regenerates /verif/MANIFEST.json from the `MANIFEST` dict of every plugin in
+tools/props/ (text, note, technique, ref) and the NOT_APPLICABLE table below, so
+that the manifest is always valid and in step with the checks that exist.
+A plugin without a MANIFEST dict (or with REGISTERED = False) is not claimed."""
+import importlib, json, os, sys
 sys.path.insert(0, os.path.dirname(os.path.abspath(__file__)))
 from common import *
 
 ALL = ["C%02d" % i for i in range(1, 21)]
 
-CHECKS = {
-    "C13": dict(
-        text="Theorem C13_exact: the decision tree regenerated from schema.cpp on every run equals the public version "
-             "table on all integer triples and both marker values (unbounded Int), with C13_no_misidentification, "
-             "C13_unsupported_iff, C13_reload, C13_layout, C13_create_or_load; tied to the code by the clang-AST "
-             "translator and by loading real directories with planted version triples (both layouts, four presence "
-             "combinations) against both the generated tree and the Spec table.",
-        note="Trusted: Lean kernel; translator tools/tr_detect.py; SQLite's reading of the Information row and of PRAGMA "
-             "table_info (correspondence only). (3,0,0) is in the Spec table (see DESIGN.md C13).",
-        technique="Lean 4 theorem over a model regenerated from source (translator) + differential loading of planted directories",
-        ref="6/C13"),
-    "C19": dict(
-        text="Theorems over the naturals for all sample counts and rates: minimal cover with less than one entry of "
-             "slack (C19_hi_cover, C19_hi_minimal), overview size 1024 spanning the count rounded down to the "
-             "quantisation number (C19_ov_size, C19_ov_rounded), emptiness iff no audio or rate < 210 (C19_empty_iff), "
-             "monotonicity (C19_mono); C19_gen_hi / C19_gen_ov re-prove on every run that the Lean code regenerated "
-             "from track_utils.hpp computes this model without undefined behaviour for n <= 2^62, 0 <= rate <= 2^31.",
-        note="Trusted: Lean kernel; translator tools/tr_trackutils.py (clang typed AST -> Lean, every implicit conversion "
-             "explicit); doubles only through FloatOps (tie compares C++ vs hardware Float bit for bit).",
-        technique="Lean 4 theorems (omega / Nat.div lemmas) over a model regenerated from source + bit-exact differential run",
-        ref="6/C19"),
-    "C20": dict(
-        text="Theorems over exact rationals about the Model of normalize_beatgrid (the same generic Lean code the driver "
-             "runs over hardware floats): first index -4, last marker in [n, n + beat), first/last tempo kept, interior "
-             "markers unchanged, result strictly increasing, idempotent, exact rejection set — for all strictly "
-             "increasing grids of any length. The C++ is tied bit-for-bit to the Float instance on generated grids, "
-             "applied twice, and a direct oracle states the property on the implementation's own answers.",
-        note="Trusted: Lean kernel (+ Mathlib's rationals / Int.ceil); floating-point rounding itself is not bounded by a "
-             "theorem (tie tolerance 1e-9 relative); int32 index arithmetic is a checked operation of the Model.",
-        technique="Lean 4 theorems over Q about a generic executable model + bit-exact differential run over Float",
-        ref="6/C20"),
-}
+# Reasons for properties that are not claimed (kept current by hand).
+NOT_APPLICABLE = {}
+PENDING_REASON = ("not claimed at this commit: the Lean model, theorems and correspondence tie for this property are "
+                  "not yet registered (see DESIGN.md section 6 for the intended check)")
 
-HOLD = set()  # registered once Properties/C20.lean is in the tree
 
-PENDING_REASON = "check under construction in this round (model and tie not yet registered); see DESIGN.md section 6"
+def plugin(pid):
+    try:
+        m = importlib.import_module("props." + pid)
+    except ImportError:
+        return None
+    if not hasattr(m, "MANIFEST") or getattr(m, "REGISTERED", True) is False:
+        return None
+    return m
 
 
 def main():
     checks = []
     for pid in ALL:
-        if pid not in CHECKS or pid in HOLD:
+        m = plugin(pid)
+        if m is None:
             continue
-        c = CHECKS[pid]
+        c = m.MANIFEST
         checks.append({
             "property_id": pid,
             "quick_cmd": "python3 tools/check.py %s --tier quick" % pid,
@@ -58,10 +39,12 @@ def main():
             "evidence_file": "/verif/evidence/%s.json" % pid,
             "replay_cmd_template": "python3 tools/check.py %s --replay {path}" % pid,
             "engine": "lean-model+djv-harness",
-            "level_claimed": {"category": "proof", "text": c["text"], "design_ref": "DESIGN.md " + c["ref"]},
+            "level_claimed": {"category": c.get("category", "proof"), "text": c["text"],
+                              "design_ref": "DESIGN.md " + c["ref"]},
             "level_note": c["note"],
             "technique": c["technique"],
         })
+    claimed = [c["property_id"] for c in checks]
     m = {
         "version": 1,
         "setup_cmd": "python3 tools/setup.py",
@@ -76,13 +59,14 @@ def main():
         },
         "engines": [{
             "name": "lean-model+djv-harness", "path": "/verif/lean + /verif/harness + /verif/tools",
-            "serves_properties": [c["property_id"] for c in checks],
+            "serves_properties": claimed,
             "kind_free_text": "Lean 4 models and theorems (lake project), compiled Lean driver, C++ sanitizer harness "
                               "linked from the library's own objects, Python orchestration (tools/check.py)",
         }],
         "checks": checks,
         "notes": "See DESIGN.md. known_findings.json lists fix: commits made to /repo (fixed entries suppress nothing).",
-        "not_applicable": [{"property_id": p, "reason": PENDING_REASON} for p in ALL if p not in CHECKS or p in HOLD],
+        "not_applicable": [{"property_id": p, "reason": NOT_APPLICABLE.get(p, PENDING_REASON)}
+                           for p in ALL if p not in claimed],
     }
     json.dump(m, open(os.path.join(VERIF, "MANIFEST.json"), "w"), indent=1)
     print("MANIFEST.json: %d checks, %d not_applicable" % (len(checks), len(m["not_applicable"])))
